@@ -1,6 +1,6 @@
 (* C15 - A record stays coherent under any sequence of column edits.
    Property theorems only; proofs are in proofs/RecordFacts.v. *)
-From MafVerif Require Import lib.Base model.RecordOps proofs.RecordFacts.
+From MafVerif Require Import lib.Base model.RecordOps model.RecordPool proofs.RecordFacts proofs.RecordPoolFacts.
 
 (* every reachable state (any finite history of set/add/delete with any
    addressing form, explicit or implicit indexes, succeeding or failing) *)
@@ -47,6 +47,24 @@ Theorem C15_iteration_by_index :
 Proof. intros ops n s. exact (iter_names_agree _ (run_coherent ops empty_rec coherent_empty) n s). Qed.
 Print Assumptions C15_iteration_by_index.
 
+(* the same when the caller re-uses column objects: operands may be objects
+   created earlier in the history (whose index an earlier call assigned, even
+   a failing one) or the very object stored in a slot *)
+Theorem C15_aliased_history_coherent :
+  forall (d : col Z) (ops : list (pop Z)), Coherent (fst (prun d (empty_rec, []) ops)).
+Proof. intros d ops. exact (prun_coherent d ops (empty_rec, []) coherent_empty). Qed.
+Print Assumptions C15_aliased_history_coherent.
+
+Theorem C15_aliased_failed_op_changes_nothing :
+  forall (d : col Z) (ops : list (pop Z)) (o : pop Z) st' e,
+    pstep d (prun d (empty_rec, []) ops) o = (st', Raise e) ->
+    fst st' = fst (prun d (empty_rec, []) ops).
+Proof.
+  intros d ops o st' e.
+  exact (pstep_fail_unchanged d _ o st' e (prun_coherent d ops (empty_rec, []) coherent_empty)).
+Qed.
+Print Assumptions C15_aliased_failed_op_changes_nothing.
+
 (* non-vacuity: a history with a gap, a replacement, a failing clash (the
    input that broke the pinned tree), deletes by index and by name *)
 Definition k (n : N) : str := [n].
@@ -66,4 +84,17 @@ Example demo_outcomes :
   map (fun n => snd (step (run empty_rec (firstn n demo_ops)) (nth n demo_ops (OAdd (c_ 0 None 0)))))
       [0;1;2;3;4;5;6;7]%nat
   = [Ok tt; Raise ValueError; Ok tt; Ok tt; Raise KeyError; Ok tt; Ok tt; Ok tt].
+Proof. vm_compute. reflexivity. Qed.
+
+(* aliasing: r.add(A); r[5] = r[0] is refused and changes nothing; an object
+   whose set failed after its index was assigned keeps that index *)
+Definition demo_pops : list (pop Z) :=
+  [ PAdd (CLit (c_ 65 None 1));                    (* object 0 stored at 0 *)
+    PSet (PK (KInt 5)) (CSlot 0);                  (* r[5] = r[0] : index mismatch *)
+    PSet (PK (KInt 0)) (CLit (c_ 66 None 2));      (* object 1: index 0 assigned, then refused (slot holds A) *)
+    PAdd (CPool 1) ].                              (* the same object again: still index 0, refused again *)
+Example demo_pool :
+  prun (c_ 65 None 0) (empty_rec, []) demo_pops
+  = ({| rdict := [(k 65, c_ 65 (Some 0) 1)]; rlist := [Some (c_ 65 (Some 0) 1)] |},
+     [c_ 65 (Some 0) 1; c_ 66 (Some 0) 2]).
 Proof. vm_compute. reflexivity. Qed.
